@@ -121,6 +121,7 @@ func caseCLI(t *testing.T, tp *simrt.Tape, c *Ctx) (res Result) {
 	var args []string
 	var rc ref.Config
 	is88 := false
+	splitChain := false
 	var L int
 	usePreset := tp.Draw("cli.preset", 5) == 0
 	presetName := ""
@@ -169,6 +170,19 @@ func caseCLI(t *testing.T, tp *simrt.Tape, c *Ctx) (res Result) {
 			// leave flags out: the documented defaults apply (README: core 8000,
 			// processes 8000, cycles 80000, length 100)
 			omit := 1 + tp.Draw("cli.defaults.mask", 15)
+			if tp.Draw("cli.defaults.only-p", 3) == 0 {
+				omit = 2
+			}
+			if omit == 2 && L >= 5 && M < 1<<(L-1) && tp.Draw("cli.defaults.chain", 3) != 0 {
+				// only -p left out: a chain of splits that needs more tasks than
+				// the core has cells, and a cycle limit that ends the battle just
+				// before the last of them dies when the documented default of 8000
+				// processes applies
+				splitChain = true
+				C = 1<<L - 2 - tp.Draw("cli.defaults.chain.c", 4)
+				fl[2][1] = strconv.Itoa(C)
+				res.stat("probe.split-chain-under-default-process-limit", 1)
+			}
 			var keep [][]string
 			for i, f := range fl {
 				if omit&(1<<i) == 0 {
@@ -222,7 +236,17 @@ func caseCLI(t *testing.T, tp *simrt.Tape, c *Ctx) (res Result) {
 	}
 	for i := 0; i < nw; i++ {
 		w := genLoadWarrior(tp, rc.M, is88, maxLen)
-		if template && sniper {
+		if splitChain {
+			if i == 0 {
+				w = ref.Warrior{}
+				for k := 0; k < L-1; k++ {
+					w.Code = append(w.Code, ref.Ins{Op: ref.SPL, Mod: ref.MB, AMode: ref.Direct, A: 1, BMode: ref.Direct, B: 0})
+				}
+				w.Code = append(w.Code, ref.Ins{Op: ref.DAT, Mod: ref.MF, AMode: ref.Immediate, A: 0, BMode: ref.Immediate, B: 0})
+			} else {
+				w = ref.Warrior{Code: []ref.Ins{{Op: ref.JMP, Mod: ref.MB, AMode: ref.Direct, A: 0, BMode: ref.Direct, B: 0}}}
+			}
+		} else if template && sniper {
 			// a sniper dropping one bomb at distance D on a sitter placed there:
 			// the outcome depends on exactly where a write at distance D lands
 			// (read/write limits of the configuration in force)
